@@ -31,8 +31,8 @@ ASSUMPTIONS = [
 ]
 SHARDS = {"quick": 16, "thorough": 16}
 MINIMUMS = {
-    "quick": {"distinct_nontrivial": 1500, "objects_checked": 40000, "post_init_checked": 40000, "pre_tasks_checked": 3000, "route:instance": 1000, "route:fromParameters": 1000, "route:shared-store": 300, "route:job-process": 16, "cyclic_instances": 100, "init_tasks_checked": 100},
-    "thorough": {"distinct_nontrivial": 45000, "objects_checked": 1200000, "post_init_checked": 1200000, "pre_tasks_checked": 90000, "route:instance": 30000, "route:fromParameters": 30000, "route:shared-store": 9000, "route:job-process": 160, "cyclic_instances": 3000, "init_tasks_checked": 3000},
+    "quick": {"distinct_nontrivial": 1500, "objects_checked": 40000, "post_init_checked": 40000, "pre_tasks_checked": 3000, "route:instance": 1000, "route:fromParameters": 1000, "route:shared-store": 300, "route:job-process": 16, "cyclic_instances": 100, "init_tasks_checked": 100, "loader_pattern_cases": 400, "loader_shape:pre-task": 150},
+    "thorough": {"distinct_nontrivial": 45000, "objects_checked": 1200000, "post_init_checked": 1200000, "pre_tasks_checked": 90000, "route:instance": 30000, "route:fromParameters": 30000, "route:shared-store": 9000, "route:job-process": 160, "cyclic_instances": 3000, "init_tasks_checked": 3000, "loader_pattern_cases": 6000, "loader_shape:pre-task": 2000},
 }
 N = {"quick": 3200, "thorough": 64000}
 NREAL = {"quick": 2, "thorough": 10}
@@ -376,8 +376,55 @@ def explore(ctx, recipe, rng, real_budget):
     return real_budget
 
 
+def loader_pattern(ctx, rng, n):
+    """The pattern of the library's own serializers: a pre-task that refers back to the configuration it is attached to
+    (LoadModel(value=model) attached to model).  Objects are requested from either end - the configuration, one of its
+    pre-tasks, a holder - so that the walk meets the pre-task before or after its owner."""
+    from xvmodels import zoo
+
+    for _ in range(n):
+        a = zoo.Artifact(v=rng.randint(0, 99))
+        pres = [zoo.Pre(k=rng.randint(0, 99), art=a) for _ in range(rng.choice([1, 1, 2, 3]))]
+        a.add_pretasks(*pres)
+        shape = rng.choice(["owner", "pre-task", "pre-task", "holder"])
+        holder = zoo.Holder(a=a) if shape == "holder" else None
+        root = {"owner": a, "pre-task": pres[rng.randrange(len(pres))], "holder": holder}[shape]
+        w = {"loader-pattern": shape, "pre_tasks": len(pres)}
+        calllog.LOG = []
+        try:
+            obj = root.instance()
+        except RecursionError:
+            ctx.count("loader_recursion")
+            calllog.LOG = None
+            continue
+        finally:
+            log, calllog.LOG = calllog.LOG, None
+        ctx.count("loader_pattern_cases")
+        ctx.count("loader_shape:" + shape)
+        inits = [e for e in log if e[0] == "post_init"]
+        execs = [e for e in log if e[0] == "pre_execute"]
+        nconf = 1 + len(pres) + (1 if holder is not None else 0)
+        if len(inits) != nconf:
+            ctx.violation("object-built-twice:loader-pattern", f"{shape} first: {len(inits)} objects were initialised for {nconf} configurations ({[e[2] for e in inits]})", w)
+            continue
+        if len({e[1] for e in inits}) != len(inits):
+            ctx.violation("post-init-run-twice:loader-pattern", f"{shape} first: __post_init__ ran twice on one object", w)
+        if len(execs) != len(pres) or len({e[1] for e in execs}) != len(pres):
+            ctx.violation("pre-task-not-once:loader-pattern", f"{shape} first: {len(pres)} pre-tasks, {len(execs)} executions on {len({e[1] for e in execs})} objects", w)
+        elif not {e[1] for e in execs} <= {e[1] for e in inits}:
+            ctx.violation("pre-task-executed-on-uninitialised-object:loader-pattern", f"{shape} first: an executed pre-task is not one of the objects that were initialised", w)
+        elif any("k" not in (e[3] or []) or "art" not in (e[3] or []) for e in execs):
+            ctx.violation("pre-task-executed-without-parameters:loader-pattern", f"{shape} first: attributes present at execution: {[e[3] for e in execs]}", w)
+        owner = obj if shape == "owner" else (obj.art if shape == "pre-task" else obj.a)
+        if shape == "pre-task" and id(obj) not in {e[1] for e in execs}:
+            ctx.violation("pre-task-object-differs:loader-pattern", "the object returned for the pre-task is not the object that was executed as pre-task of its owner", w)
+        ctx.case({"loader": shape, "n": len(pres), "v": a.v, "ks": [p.k for p in pres]}, nontrivial=True, sample={"shape": shape, "pre_tasks": len(pres), "objects": len(inits)}, max_samples=2)
+
+
 def worker(ctx):
     xpctx.quiet()
+    with xpctx.stderr_to_devnull():
+        loader_pattern(ctx, ctx.rng, 40 if ctx.tier == "quick" else 600)
     n = max(1, N[ctx.tier] // ctx.nshards)
     real_budget = NREAL[ctx.tier]
     profs = [
